@@ -11,13 +11,20 @@ import (
 	"context"
 	"fmt"
 	"os"
+	"os/exec"
 	"path/filepath"
+	"reflect"
 	"sort"
+	"strconv"
 	"strings"
 	"sync"
+	"time"
 
 	"github.com/restic/restic/internal/backend"
+	"github.com/restic/restic/internal/backend/all"
 	"github.com/restic/restic/internal/data"
+	"github.com/restic/restic/internal/global"
+	"github.com/restic/restic/internal/options"
 	"github.com/restic/restic/internal/repository"
 	"github.com/restic/restic/internal/repository/index"
 	"github.com/restic/restic/internal/restic"
@@ -28,6 +35,185 @@ var _ = verifRegister("C32", engineC32)
 type c32NoCounter struct{}
 
 func (c32NoCounter) NewCounterTerminalOnly(string) restic.Counter { return restic.NoopCounter }
+
+
+// ---- similarSnapshots probed field by field (constants regenerated into coq/Gen/ParamsC32.v) ----
+
+func c32BaseSnapshot() *data.Snapshot {
+	id := func(b byte) *restic.ID { var x restic.ID; x[0] = b; return &x }
+	return &data.Snapshot{Time: time.Unix(1700000000, 0), Parent: id(1), Tree: id(2), Paths: []string{"/a", "/b"},
+		Hostname: "h", Username: "u", UID: 7, GID: 8, Excludes: []string{"x", "y"}, Tags: []string{"s", "t"},
+		Original: id(3), ProgramVersion: "v", Summary: &data.SnapshotSummary{}}
+}
+
+// c32FieldSensitive: does changing struct field i alone make similarSnapshots answer false?
+func c32FieldSensitive(i int) bool {
+	a, b := c32BaseSnapshot(), c32BaseSnapshot()
+	f := reflect.ValueOf(b).Elem().Field(i)
+	if !f.CanSet() {
+		return false
+	}
+	switch v := f.Interface().(type) {
+	case time.Time:
+		f.Set(reflect.ValueOf(v.Add(time.Second)))
+	case string:
+		f.SetString(v + "x")
+	case uint32:
+		f.SetUint(uint64(v) + 1)
+	case []string:
+		f.Set(reflect.ValueOf(append(append([]string(nil), v...), "zz")))
+	case *restic.ID:
+		var x restic.ID
+		x[0] = 0xee
+		f.Set(reflect.ValueOf(&x))
+	case *data.SnapshotSummary:
+		f.Set(reflect.ValueOf(&data.SnapshotSummary{TotalFilesProcessed: 5}))
+	default:
+		return false
+	}
+	return !similarSnapshots(a, b) || !similarSnapshots(b, a)
+}
+
+func c32FieldIndex(name string) int64 {
+	t := reflect.TypeOf(data.Snapshot{})
+	for i := 0; i < t.NumField(); i++ {
+		if t.Field(i).Name == name {
+			return int64(i)
+		}
+	}
+	return -1
+}
+
+func c32OrderSensitive(name string) int64 {
+	a, b := c32BaseSnapshot(), c32BaseSnapshot()
+	f := reflect.ValueOf(b).Elem().FieldByName(name)
+	v := f.Interface().([]string)
+	f.Set(reflect.ValueOf([]string{v[1], v[0]}))
+	if similarSnapshots(a, b) {
+		return 0
+	}
+	return 1
+}
+
+var _ = verifParam("C32", "similar_mask", func() int64 {
+	var m int64
+	for i := 0; i < reflect.TypeOf(data.Snapshot{}).NumField(); i++ {
+		if c32FieldSensitive(i) {
+			m |= 1 << uint(i)
+		}
+	}
+	return m
+})
+var _ = verifParam("C32", "snapshot_fields", func() int64 { return int64(reflect.TypeOf(data.Snapshot{}).NumField()) })
+var _ = verifParam("C32", "idx_time", func() int64 { return c32FieldIndex("Time") })
+var _ = verifParam("C32", "idx_parent", func() int64 { return c32FieldIndex("Parent") })
+var _ = verifParam("C32", "idx_tree", func() int64 { return c32FieldIndex("Tree") })
+var _ = verifParam("C32", "idx_original", func() int64 { return c32FieldIndex("Original") })
+var _ = verifParam("C32", "paths_order_sensitive", func() int64 { return c32OrderSensitive("Paths") })
+var _ = verifParam("C32", "tags_order_sensitive", func() int64 { return c32OrderSensitive("Tags") })
+var _ = verifParam("C32", "excludes_order_sensitive", func() int64 { return c32OrderSensitive("Excludes") })
+
+
+// ---- real process kills (thorough tier) ----
+
+func c32OpenVenv(repo, cache string) *venv {
+	vsetupFast()
+	e := &venv{base: filepath.Dir(repo), repo: repo, cache: cache, rec: newRecorder()}
+	_ = os.MkdirAll(cache, 0o700)
+	e.gopts = global.Options{Repo: repo, Quiet: true, CacheDir: cache, NoCache: true, Password: vPassword,
+		Extended: make(options.Options), Backends: all.Backends()}
+	e.gopts.BackendInnerTestHook = func(be backend.Backend) (backend.Backend, error) {
+		return &vrecBackend{Backend: be, r: e.rec}, nil
+	}
+	return e
+}
+
+// c32KillChild: `copy` in this (child) process; the process dies right before the k-th modifying
+// operation (pack / index / snapshot Save) reaches the destination backend.
+func c32KillChild(spec string) {
+	f := strings.Split(spec, "|")
+	k, _ := strconv.Atoi(f[2])
+	os.Setenv("RESTIC_FROM_PASSWORD", vPassword)
+	dst := c32OpenVenv(f[0], filepath.Join(filepath.Dir(f[0]), "cache-child"))
+	n := 0
+	dst.rec.OnOp = func(o *vop) error {
+		if o.modifying() && o.Type != backend.LockFile {
+			if n == k {
+				os.Exit(77)
+			}
+			n++
+		}
+		return nil
+	}
+	done := make(chan error, 1)
+	go func() {
+		_, _, err := dst.cli("copy", "--from-repo", f[1])
+		done <- err
+	}()
+	if err := <-done; err != nil {
+		os.Exit(3)
+	}
+	os.Exit(0)
+}
+
+// c32Kills: kill copy at successive points, each time on the state the previous kill left behind; after
+// every kill the destination is decoded (Coq: every present snapshot has its data) and `restic check` is run.
+func c32Kills(c *vctx, src, dst *venv, names *c32Names, dstMode string) error {
+	ctx := context.Background()
+	self, err := os.Executable()
+	if err != nil {
+		return err
+	}
+	for k := 0; k < 8; k++ {
+		cmd := exec.Command(self, "C32", c.tier, "1", filepath.Join(c.dir, "killchild"))
+		cmd.Env = append(os.Environ(), "RESTIC_VERIF=1", fmt.Sprintf("VERIF_C32_KILL=%s|%s|%d", dst.repo, src.repo, k))
+		out, rerr := cmd.CombinedOutput()
+		code := 0
+		if ee, ok := rerr.(*exec.ExitError); ok {
+			code = ee.ExitCode()
+		} else if rerr != nil {
+			return rerr
+		}
+		if code != 0 && code != 77 {
+			return fmt.Errorf("kill child k=%d: exit %d: %s", k, code, string(out))
+		}
+		_, _, _ = dst.cli("unlock")
+		_, _, _ = src.cli("unlock")
+		srcRepo, err := src.openRepo(ctx)
+		if err != nil {
+			return err
+		}
+		state, err := c32State(ctx, dst, srcRepo, names, nil)
+		if err != nil {
+			return fmt.Errorf("state after kill %d: %w", k, err)
+		}
+		_, cerrOut, cerr := dst.cli("check")
+		if cerr != nil {
+			state = strings.TrimSuffix(state, " false)") + " true)" // real check failed: nothing is consistent
+		}
+		dstRepo, err := dst.openRepo(ctx)
+		if err != nil {
+			return err
+		}
+		sn, err := c32Snapshots(ctx, dstRepo)
+		if err != nil {
+			return err
+		}
+		ys := make([]string, len(sn))
+		for i, x := range sn {
+			ys[i] = x.coq(names)
+		}
+		q := coqList(ys)
+		term := fmt.Sprintf("C32m.mk [] %s %s [] %s [] [] %s [] []", q, state, q, q)
+		c.Hist(fmt.Sprintf("kill-exit=%d", code))
+		c.Case("kill-"+dstMode, code == 77, k+1, term,
+			fmt.Sprintf("copy killed before modifying op %d (exit %d): %d snapshots in the destination, check error=%v %s", k, code, len(sn), cerr != nil, strings.TrimSpace(cerrOut)))
+		if code == 0 {
+			break // copy ran to completion: no further crash points
+		}
+	}
+	return nil
+}
 
 type c32Names struct{ m map[string]int }
 
@@ -505,12 +691,20 @@ func c32Scenario(c *vctx, rng *vrng, num int) error {
 			return fmt.Errorf("backup: %w", err)
 		}
 	}
+	if (c.thorough() || os.Getenv("VERIF_C32_KILLS") == "1") && num%4 == 0 {
+		if err := c32Kills(c, src, dst, names, dstMode); err != nil {
+			return err
+		}
+	}
 	_ = os.RemoveAll(src.base)
 	_ = os.RemoveAll(dst.base)
 	return nil
 }
 
 func engineC32(c *vctx) error {
+	if spec := os.Getenv("VERIF_C32_KILL"); spec != "" {
+		c32KillChild(spec)
+	}
 	c.Header("Model.C32m", "C32m.case", "C32m.check_case")
 	c.Preamble("Import C32m.")
 	n := c.n(5, 24)
